@@ -421,6 +421,9 @@ func registerStubs(ex *Exec) {
 		}
 		return nil
 	}
+	S["math.Floor"] = func(ex *Exec, st *State, site ssa.Instruction, fn *ssa.Function, args []Value) Value {
+		return smt.FFloor(args[0].(*smt.Term))
+	}
 	S["math.Abs"] = func(ex *Exec, st *State, site ssa.Instruction, fn *ssa.Function, args []Value) Value {
 		return smt.FAbs(args[0].(*smt.Term))
 	}
